@@ -1,5 +1,5 @@
 import sys, time
-sys.path[:0]=['/verif','/repo']
+import os; sys.path[:0]=['/verif', os.environ.get('VERIF_REPO','/repo')]
 import importlib, z3
 from vlib.common import Report
 from pyvc.contract import Verifier
